@@ -642,6 +642,33 @@ static void shapes(vh::Rng& r, bool thorough) {
     }
 }
 
+//extrema of arrays with repeated values (clipped / quantised data): value and first occurrence
+static void extrema_ties(vh::Rng& r, int n) {
+    const int alphabet = int(r.range(1, 5));
+    arr_real x(n);
+    for (int i = 0; i < n; ++i) {
+        x[i] = double(r.below(alphabet)) - 1.5;
+    }
+    int imx = 0, imn = 0;
+    for (int i = 1; i < n; ++i) {
+        if (x[i] > x[imx]) {
+            imx = i;
+        }
+        if (x[i] < x[imn]) {
+            imn = i;
+        }
+    }
+    vh::Hasher h;
+    h.s("extrema_ties").i(n).u64(hash_arr(x));
+    vh::count(h.get(), true);
+    vh::obs_add("extrema_tied_arrays");
+    const bool ok = dl::max(x) == x[imx] && dl::min(x) == x[imn] && dl::argmax(x) == imx && dl::argmin(x) == imn && dl::peak2peak(x) == x[imx] - x[imn];
+    if (!ok) {
+        vh::violation("C17/extrema/real", vh::fmt("array of %d values from an alphabet of %d: got max %.17g@%d min %.17g@%d peak2peak %.17g, expected max %.17g@%d min %.17g@%d (first occurrences)", n, alphabet,
+                                                  dl::max(x), dl::argmax(x), dl::min(x), dl::argmin(x), dl::peak2peak(x), x[imx], imx, x[imn], imn));
+    }
+}
+
 int main(int argc, char** argv) {
     vh::init(argc, argv, "C17");
     const bool thorough = vh::g.thorough();
@@ -662,6 +689,9 @@ int main(int argc, char** argv) {
         vh::Rng r = vh::rng_for("red", b);
         const int n = (b < 40) ? (b + 1) : int(r.range(1, 1000));
         reductions(r, n);
+        for (int t = 0; t < 8; ++t) {
+            extrema_ties(r, int(r.range(1, 40)));
+        }
     }
     if (vh::mine(idx++)) {
         vh::Rng r = vh::rng_for("shapes");
